@@ -180,7 +180,7 @@ Proof.
   induction fuel as [|f IH]; intros hi tord nt maxw st st' H; cbn [words_loop] in H; [discriminate|].
   destruct (ts_idx st <? hi); [|inversion H; subst; lia].
   apply bind_inv in H as (w & _ & H). apply bind_inv in H as ([spans1 full1] & _ & H).
-  apply bind_inv in H as (ck & _ & H). apply bind_inv in H as ([[spans2 idx2] ck2] & Hcg & H).
+  apply bind_inv in H as (ck & _ & H). apply bind_inv in H as ([[[spans2 idx2] ck2] full2] & Hcg & H).
   assert (Hidx : ts_idx st + 1 <= idx2).
   { destruct (SPAN_CAP <=? N.of_nat (length spans1)).
     - destruct (SPAN_CAP <=? N.of_nat (length (compact spans1 maxw))).
